@@ -14,7 +14,7 @@ LINE_SHAPES = ["<a>", "<A n>", "<b>", "<a/>", "<a N />", "</a>", "</A >", "</b>"
 # extra shapes only used with the recording context (schemaless refuses them)
 DIRECTIVE_SHAPES = ["%define n v", "%define N", "%include f", "k $n", "%define m $n",
                     "%Define n v", "%define", "%import", "%foo x", "% define n v",
-                    "%define 1n v", "%include", "%includes f", "%import p q"]
+                    "%define 1n v", "%include", "%includes f", "%import p q", "%include a b", "%include\tx\ty"]
 
 
 def single_lines(maxtok, prefix_filter=None):
